@@ -1597,6 +1597,8 @@ fn separation(signers: &[Signer], n: &Notice) {
   let payload_nonce: Option<String> = serde_json::from_slice::<Value>(&n.raw_payload).ok().and_then(|v| v.get("nonce").and_then(|x| x.as_str().map(str::to_owned)));
   let other_nonce = match &n.nonce {
     None if payload_nonce.is_some() => payload_nonce.unwrap(),
+    // (the token's nonce with white space around it is another nonce)
+    Some(_) if ctx::choose(4) == 0 => super::whitespace_twin(&n.nonce).unwrap_or_default(),
     Some(t) if ctx::choose(2) == 0 => {
       let mut o = t.clone();
       let last = o.pop().unwrap_or('x');
@@ -1646,6 +1648,79 @@ fn separation(signers: &[Signer], n: &Notice) {
   }
 }
 
+/// A document assembled elsewhere embeds a verification method of ANOTHER DID (`did:sim:fellow#fk`, e.g. a key of a
+/// partner organisation) whose key lives in this party's storage. A token produced through the storage-backed call
+/// with that method names that method (`kid` = the method's id) and verifies against the document it was produced
+/// with.
+fn foreign_embedded_method_scenario(clock: &Clock) {
+  use identity_storage::JwkDocumentExt;
+  let mut p = Party::new("signer", false, 7);
+  clock.enter(0);
+  if p.gen_method("fk", None).is_err() {
+    return;
+  }
+  let mut dj = serde_json::to_value(p.doc.core()).unwrap();
+  let own_id = format!("{}#fk", p.did);
+  let foreign_id = "did:sim:fellow#fk".to_owned();
+  let mut moved = false;
+  if let Some(ms) = dj.get_mut("verificationMethod").and_then(|a| a.as_array_mut()) {
+    for m in ms.iter_mut() {
+      if m.get("id").and_then(|i| i.as_str()) == Some(own_id.as_str()) {
+        m["id"] = foreign_id.clone().into();
+        m["controller"] = "did:sim:fellow".into();
+        moved = true;
+      }
+    }
+  }
+  if !moved {
+    return;
+  }
+  let Ok(doc) = CoreDocument::from_json_value(dj) else { return };
+  ctx::stat("probe.foreign_did_embedded_signing_method");
+  let mut payload = b"made with the method of a fellow DID ".to_vec();
+  payload.extend_from_slice(&ctx::bytes(6));
+  let query = if ctx::choose(2) == 0 { foreign_id.as_str() } else { "fk" };
+  ctx::sched("foreign-embedded", query.len() as u64);
+  let jws = match block_on(doc.create_jws(&p.storage, query, &payload, &JwsSignatureOptions::default())) {
+    Ok(j) => j,
+    Err(e) => {
+      ctx::violation(
+        "C08",
+        "C08.produced_token_decodes_and_verifies",
+        "foreign-embedded-method/create_jws-fails",
+        format!("create_jws with the embedded method {foreign_id} (query {query:?}) failed: {e}"),
+      );
+      return;
+    }
+  };
+  let kid = jws
+    .as_str()
+    .split('.')
+    .next()
+    .and_then(super::b64url_decode)
+    .and_then(|h| serde_json::from_slice::<Value>(&h).ok())
+    .and_then(|h| h.get("kid").and_then(|k| k.as_str().map(str::to_owned)));
+  if kid.as_deref() != Some(foreign_id.as_str()) {
+    ctx::violation(
+      "C08",
+      "C08.produced_token_decodes_and_verifies",
+      "foreign-embedded-method/kid-is-not-the-method-id",
+      format!("the token made with the embedded method {foreign_id} names {kid:?} as kid"),
+    );
+    return;
+  }
+  match doc.verify_jws(jws.as_str(), None, &EdDSAJwsVerifier::default(), &JwsVerificationOptions::default()) {
+    Ok(decoded) if decoded.claims.as_ref() == payload.as_slice() => {}
+    Ok(_) => ctx::violation("C08", "C08.produced_token_decodes_and_verifies", "foreign-embedded-method/claims-differ", "claims differ from the signed payload"),
+    Err(e) => ctx::violation(
+      "C08",
+      "C08.produced_token_decodes_and_verifies",
+      "foreign-embedded-method/does-not-verify",
+      format!("the token made with the embedded method {foreign_id} does not verify against the document it was produced with: {e}"),
+    ),
+  }
+}
+
 pub fn run(prop: &str, _params: &Params) {
   let clock = Clock { now: ctx::BASE_TIME };
   clock.enter(0);
@@ -1667,6 +1742,9 @@ pub fn run(prop: &str, _params: &Params) {
   }
   if signers.is_empty() {
     return;
+  }
+  if prop == "C08" && ctx::choose(10) == 0 {
+    foreign_embedded_method_scenario(&clock);
   }
   let faulty_storage = prop == "C08" && ctx::choose(2) == 0;
   // one receiver in three files all trusted keys under one label of its own (unique per run)
